@@ -20,6 +20,7 @@ struct Model {
     trusted: [bool; 4],
     /// gas-token balances of U0, U1, gas service
     gas: [i128; 3],
+    rebranded: bool,
 }
 
 #[derive(Clone, Copy, Debug, PartialEq, Eq, Serialize, Deserialize)]
@@ -33,6 +34,8 @@ enum Gas {
 
 #[derive(Clone, Debug, Serialize, Deserialize)]
 enum Act {
+    /// the issuer of a registered custom token renames it (later announcements carry the new metadata)
+    Rebrand,
     SetTrusted(usize),
     RemoveTrusted(usize),
     /// deploy_remote_interchain_token; auth: 0 = caller, 1 = the other user, 2 = nobody
@@ -148,7 +151,7 @@ impl Scenario for C18 {
                 balance_watch.push((t.clone(), h));
             }
         }
-        (Ctx { iw, local_meta, canon, balance_watch }, Model { advances: 0, trusted: [true, false, false, false], gas: [3, 1, 0] })
+        (Ctx { iw, local_meta, canon, balance_watch }, Model { advances: 0, trusted: [true, false, false, false], gas: [3, 1, 0], rebranded: false })
     }
 
     fn actions(&self, ctx: &Ctx, m: &Model) -> Vec<Act> {
@@ -158,6 +161,9 @@ impl Scenario for C18 {
             // ~405 days: longer than the maximum entry TTL, so every temporary entry is gone by then, while
             // the world's keeper (World::set_seq) keeps instance / persistent entries alive
             v.push(Act::Advance(7_000_000));
+        }
+        if !m.rebranded {
+            v.push(Act::Rebrand);
         }
         for c in [0usize, 1, 3] {
             v.push(Act::SetTrusted(c));
@@ -210,6 +216,14 @@ impl Scenario for C18 {
                 w.set_seq(w.seq() + n);
                 w.set_time(w.now() + 5 * *n as u64);
                 m.advances += 1;
+            }
+            Act::Rebrand => {
+                out.kind = "rebrand";
+                out.accepted = true;
+                // canonical token 6 ("W255") gets a new name and symbol from its issuer
+                let c = w.call(&ctx.canon[6].addr, "rebrand", &[to_val(env, &sstr("W255 renamed")), to_val(env, &sstr("W2"))], Auth::Nobody);
+                assert!(c.ok, "{}", c.err);
+                m.rebranded = true;
             }
             Act::SetTrusted(c) | Act::RemoveTrusted(c) => {
                 out.kind = "trust";
@@ -356,7 +370,7 @@ fn main() {
         let mut o = Opts::new(tier, if thorough { 11 } else { 9 });
         o.min_depth = 2;
         o.xcheck = tier == "thorough";
-        o.rule = "histories of trusted-chain changes (a mixed-case name, a lower-case name, the hub itself) followed by remote deployment requests: deploy_remote_interchain_token for caller U0 / U1 x 4 salts (3 registered by U0 with metadata incl. multi-byte name and decimals 0/7/255; one never used; U1 reusing U0's salts) and deploy_remote_canonical_token for a registered asset contract, an unregistered one and 9 canonical tokens with unusual metadata (256 decimals, empty name, empty symbol, non-UTF-8 name, 255 decimals, a name that is one blank, a symbol ending in a blank, a symbol ending in NUL, a name that is one NUL); destination trusted / removed again / never trusted (the service's own chain name) / the hub; the gas service named as its own payer; gas -1, 0, 1, balance, balance+1; authorised by the payer / the other user / nobody. Announced payload, gas_paid and token_deployment_started are compared with the independent ABI encoding of the token's actual metadata; every other balance must stay put".into();
+        o.rule = "histories of trusted-chain changes (a mixed-case name, a lower-case name, the hub itself) followed by remote deployment requests: deploy_remote_interchain_token for caller U0 / U1 x 4 salts (3 registered by U0 with metadata incl. multi-byte name and decimals 0/7/255; one never used; U1 reusing U0's salts) and deploy_remote_canonical_token for a registered asset contract, an unregistered one and 9 canonical tokens with unusual metadata (256 decimals, empty name, empty symbol, non-UTF-8 name, 255 decimals, a name that is one blank, a symbol ending in a blank, a symbol ending in NUL, a name that is one NUL); a registered custom token renamed by its issuer between two requests; destination trusted / removed again / never trusted (the service's own chain name) / the hub; the gas service named as its own payer; gas -1, 0, 1, balance, balance+1; authorised by the payer / the other user / nobody. Announced payload, gas_paid and token_deployment_started are compared with the independent ABI encoding of the token's actual metadata; every other balance must stay put".into();
         (C18 { thorough }, o)
     });
 }
